@@ -504,9 +504,19 @@ def collectDirs : List Directive → Option (Bool × List Directive)
       some (e.cancel || c, if d.name == b!"id" || d.name == b!"noAutoescape" then kept else d :: kept)
     | _, _ => none
 
-/-- the directives applied, outermost first: the implicit escapeHtml unless autoescaping is off or cancelled -/
+def escapeHtmlDir : Directive := { pos := 0, name := escapeHtmlName, args := [] }
+
+/-- insertWordBreaks and changeNewlineToBr get their input escaped (the Go directives escape it themselves) -/
+def withInputEscapes : List Directive → List Directive
+  | [] => []
+  | d :: r =>
+    if d.name == b!"insertWordBreaks" || d.name == b!"changeNewlineToBr" then escapeHtmlDir :: d :: withInputEscapes r
+    else d :: withInputEscapes r
+
+/-- the directives applied, innermost (first applied) first: the implicit escapeHtml comes last unless
+    autoescaping is off or cancelled -/
 def printDirs (ae : Autoescape) (cancel : Bool) (kept : List Directive) : List Directive :=
-  if (if cancel then Autoescape.off else ae) != .off then { pos := 0, name := escapeHtmlName, args := [] } :: kept else kept
+  if (if cancel then Autoescape.off else ae) != .off then withInputEscapes kept ++ [escapeHtmlDir] else withInputEscapes kept
 
 def closeDirective (d : Directive) : M Unit := do
   seqM (d.args.map fun a => do fx b!","; walkExpr sk o a)
@@ -522,9 +532,9 @@ def visitPrint (arg : Expr) (dirs : List Directive) : M Unit := do
     let ds := printDirs s.autoescape cancel kept
     indentP
     emit (.ident s.bufferName); fx b!" += "
-    seqM (ds.map fun d => do fx (directiveJsName d.name); fx b!"(")
+    seqM (ds.reverse.map fun d => do fx (directiveJsName d.name); fx b!"(")
     walkExpr sk o arg
-    seqM (ds.reverse.map (closeDirective sk o))
+    seqM (ds.map (closeDirective sk o))
     fx b!";\n"
 
 /-! ## translated messages (evalMsgParts) -/
